@@ -17,14 +17,19 @@ What is proved for ALL inputs of the model
     and dependent only on the isomorphism classes of the graphs (`isIsomorphic_invariant`);
   * bag comparison: the counting identities for ANY comparison predicate, "entirely shared" for any
     equivalence relation, and its instance for `is_isomorphic` (`compareBags_mrs_renamed_copy`).
-What is NOT proved (decided by the direct oracle of harness/c06.py on the real code): the reading of a
-graph isomorphism as an MRS isomorphism — in particular that renaming variables / reordering
-predications of an MRS yields an isomorphic encoding graph, and that isomorphic MRSs pass the four
-size pre-checks.  The encodings provably never raise (`isIsomorphic_total`).  Hypothesis that stays: edge
-labels are clean (`cleanGraph`: no role named `--…`; needed for soundness only, `cleanLabels_needed`).
+  * faithfulness of the encoding: on the input space `InSpace` (Spec.lean, all clauses decidable and
+    evaluated by the driver on every generated case) `is_isomorphic` answers `True` exactly on
+    isomorphic MRSs — `MRSIso`, defined without any graph (`isIsomorphic_iff_mrsIso`); isomorphic
+    MRSs pass the size pre-checks (`mrsIso_passes_size_checks`); renaming / reordering invariance
+    (`isIsomorphic_renamed`, `_reordered`).
+What is NOT proved: nothing of the property's clauses for the model remains open; what remains
+trusted is the model itself (tied to the code by the correspondence run and the pins) and the
+hypotheses: `InSpace` (node-name hygiene, no parallel constraints, the three edge-label alphabets
+disjoint, no blank in a role, no `(`/`{` in a predicate, no `)` in a constant, clean edge labels).
 -/
 import Verif.C06.Complete
 import Verif.C06.Encoding
+import Verif.C06.Faithful
 
 namespace Verif.C06
 open Verif.Sem
@@ -341,6 +346,66 @@ theorem single_label_change_rejected (properties : Bool) (m1 m2 : MRS)
     simp only [List.count_append, List.count_cons_self, List.count_cons_of_ne (Ne.symm hab)] at this
     omega
 
+/-! ## "MRS isomorphism … its verdict equals that of an exhaustive search for a structure-preserving
+bijection over predicates, constants, role-labelled arguments, labels, handle and individual
+constraints and (when requested) morphosemantic properties" — faithfulness of the encoding -/
+
+-- `MRSIso` (Spec.lean) is defined without any graph: a bijection σ of the variables, a pairing of the
+-- predications with equal normalised predicate / constant / canonical property text, σ-related labels and
+-- role-labelled arguments, and σ-related handle and individual constraints.
+/-- **Faithfulness.**  Whenever `is_isomorphic` answers `True` on two structures of the input space
+(`InSpace`, Spec.lean: `NamesOK`, `NoParallel`, role names without blank or lower-case letter and
+distinct per predication, handle-constraint relations among qeq/lheq/outscopes, individual-constraint
+relations lower-case and different from those and from `eq-scope`, no `(`/`{` in a normalised
+predicate, no `)` in a constant, clean edge labels), the two structures are isomorphic MRSs. -/
+theorem isIsomorphic_imp_mrsIso (properties : Bool) (m1 m2 : MRS)
+    (h1 : InSpace properties m1) (h2 : InSpace properties m2)
+    (h : isIsomorphic properties m1 m2 = .ok true) : MRSIso properties m1 m2 := by
+  obtain ⟨g1, g2, hg1, hg2, hiso⟩ := isIsomorphic_sound properties m1 m2 h
+  obtain ⟨μ, hμ⟩ := hiso (h1.clean g1 hg1) (h2.clean g2 hg2)
+  exact mrsIso_of_graphIso h1 h2 hg1 hg2 hμ
+
+/-- … so a structure that is NOT an isomorphic MRS (a changed predicate, argument, constant,
+constraint or property) is reported `False` -/
+theorem not_mrsIso_rejected (properties : Bool) (m1 m2 : MRS)
+    (h1 : InSpace properties m1) (h2 : InSpace properties m2) (hn : ¬ MRSIso properties m1 m2) :
+    isIsomorphic properties m1 m2 = .ok false := by
+  obtain ⟨v, hv⟩ := isIsomorphic_total properties m1 m2
+  cases v with
+  | false => exact hv
+  | true => exact absurd (isIsomorphic_imp_mrsIso properties m1 m2 h1 h2 hv) hn
+
+/-- **Completeness at the MRS level**: isomorphic MRSs of the input space are reported `True`.  The
+graph isomorphism is built from the variable bijection and the pairing of the predications; that the
+merged role label `' '.join(sorted(roles))` does not depend on the order of the argument dict uses
+that insertion sort is canonical (`sorted_perm_eq`). -/
+theorem mrsIso_imp_isIsomorphic (properties : Bool) (m1 m2 : MRS)
+    (h1 : InSpace properties m1) (h2 : InSpace properties m2) (h : MRSIso properties m1 m2) :
+    isIsomorphic properties m1 m2 = .ok true := by
+  obtain ⟨g1, hg1, hc1⟩ := mkIsoGraph_ok properties m1
+  obtain ⟨g2, hg2, hc2⟩ := mkIsoGraph_ok properties m2
+  have ha1 : invMap g1 = .ok (invMapRaw g1) := by simp [invMap, hc1]
+  have ha2 : invMap g2 = .ok (invMapRaw g2) := by simp [invMap, hc2]
+  exact isIsomorphic_complete properties m1 m2 g1 g2 _ _ hg1 hg2 ha1 ha2 (sizes_of_mrsIso h)
+    (graphIso_of_mrsIso h1 h2 hg1 hg2 h)
+
+/-- **The property's first sentence, for the model:** on the input space, `is_isomorphic` answers
+`True` exactly on isomorphic MRSs (and `False` on all others; it never raises). -/
+theorem isIsomorphic_iff_mrsIso (properties : Bool) (m1 m2 : MRS)
+    (h1 : InSpace properties m1) (h2 : InSpace properties m2) :
+    (isIsomorphic properties m1 m2 = .ok true ↔ MRSIso properties m1 m2)
+    ∧ (isIsomorphic properties m1 m2 = .ok false ↔ ¬ MRSIso properties m1 m2) := by
+  refine ⟨⟨isIsomorphic_imp_mrsIso properties m1 m2 h1 h2, mrsIso_imp_isIsomorphic properties m1 m2 h1 h2⟩,
+    ⟨?_, not_mrsIso_rejected properties m1 m2 h1 h2⟩⟩
+  intro hf hiso
+  rw [mrsIso_imp_isIsomorphic properties m1 m2 h1 h2 hiso] at hf
+  cases hf
+
+/-- "isomorphic MRSs pass the four size pre-checks": equal numbers of predications, handle
+constraints, individual constraints and variables -/
+theorem mrsIso_passes_size_checks (properties : Bool) (m1 m2 : MRS) (h : MRSIso properties m1 m2) :
+    sizesDiffer m1 m2 = false := sizes_of_mrsIso h
+
 /-! ## "Comparing two bags of MRSs returns counts with unique-test + shared = size of test and
 shared + unique-gold = size of gold" -/
 
@@ -488,6 +553,61 @@ theorem cleanLabels_needed :
     ∧ (vf2 (invMapRaw gUnclean1) (invMapRaw gUnclean2)).length = gUnclean2.length
     ∧ edge gUnclean1 "a" (some "b") ≠ edge gUnclean2 "a" (some "b")
     ∧ cleanGraph gUnclean1 = false := by decide
+
+
+/-! ### a concrete pair on each side (everything evaluated by `decide`) -/
+section MRSExamples
+private def vH (n : Nat) : Var := ⟨"h", n⟩
+private def vX (n : Nat) : Var := ⟨"x", n⟩
+private def vE (n : Nat) : Var := ⟨"e", n⟩
+
+/-- "The dog barks": `_the_q(x3, RSTR h5)`, `_dog_n_1(x3)`, `_bark_v_1(e2, ARG1 x3)` -/
+def mDog : MRS :=
+  { top := some (vH 0)
+    index := some (vE 2)
+    rels := [{ predicate := "_the_q", label := vH 4, args := [("ARG0", vX 3), ("RSTR", vH 5), ("BODY", vH 6)] },
+             { predicate := "_dog_n_1", label := vH 7, args := [("ARG0", vX 3)] },
+             { predicate := "_bark_v_1", label := vH 1, args := [("ARG0", vE 2), ("ARG1", vX 3)] }]
+    hcons := [⟨vH 0, "qeq", vH 1⟩, ⟨vH 5, "qeq", vH 7⟩]
+    variables := [(vX 3, [("PERS", "3"), ("NUM", "sg")]), (vE 2, [("TENSE", "pres")])] }
+
+/-- the same reading with other variable names, predications and constraints in another order,
+another spelling of one predicate and of the property names -/
+def mDogRenamed : MRS :=
+  { top := some (vH 10)
+    index := some (vE 9)
+    rels := [{ predicate := "_bark_v_1", label := vH 2, args := [("ARG0", vE 9), ("ARG1", vX 8)] },
+             { predicate := "\"_DOG_n_1_rel\"", label := vH 3, args := [("ARG0", vX 8)] },
+             { predicate := "_the_q", label := vH 1, args := [("ARG0", vX 8), ("RSTR", vH 4), ("BODY", vH 5)] }]
+    hcons := [⟨vH 4, "qeq", vH 3⟩, ⟨vH 10, "qeq", vH 2⟩]
+    variables := [(vE 9, [("tense", "PRES")]), (vX 8, [("num", "SG"), ("pers", "3")])] }
+
+/-- one property value changed -/
+def mDogPlural : MRS :=
+  { mDogRenamed with variables := [(vE 9, [("tense", "PRES")]), (vX 8, [("num", "PL"), ("pers", "3")])] }
+
+example : inSpaceb true mDog = true ∧ inSpaceb true mDogRenamed = true ∧ inSpaceb true mDogPlural = true := by
+  decide
+-- isomorphic side: the verdict is True, hence (by the theorem) the two are isomorphic MRSs
+example : (isIsomorphic true mDog mDogRenamed).toOption = some true := by decide
+example : MRSIso true mDog mDogRenamed := by
+  apply isIsomorphic_imp_mrsIso true _ _ (inSpace_of_b (by decide)) (inSpace_of_b (by decide))
+  have : (isIsomorphic true mDog mDogRenamed).toOption = some true := by decide
+  cases h : isIsomorphic true mDog mDogRenamed with
+  | error e => rw [h] at this; cases this
+  | ok v => rw [h] at this; cases v <;> simp_all [Except.toOption]
+-- non-isomorphic side: a changed property value is rejected when properties are compared, and accepted
+-- when they are not
+example : (isIsomorphic true mDog mDogPlural).toOption = some false := by decide
+example : (isIsomorphic false mDog mDogPlural).toOption = some true := by decide
+-- … hence (by the theorem) they are NOT isomorphic MRSs when properties count
+example : ¬ MRSIso true mDog mDogPlural := by
+  intro h
+  have ht := mrsIso_imp_isIsomorphic true _ _ (inSpace_of_b (by decide)) (inSpace_of_b (by decide)) h
+  have : (isIsomorphic true mDog mDogPlural).toOption = some false := by decide
+  rw [ht] at this
+  cases this
+end MRSExamples
 
 end Examples
 
